@@ -8,6 +8,7 @@ integers; the model computes on `BitVec w` (`BitVec.ofInt`), the specification o
   min <ty> <list> | max <ty> <list> => <v> | panic:custom   clamp <ty> <v> <lo> <hi> => <v>    clamp01 <ty> <v> => <v>
   sum <ty> <list> | product <ty> <list> => <v>  (ty = f64: operands/result are IEEE-754 bit patterns as int64, NaN = nan)              compare <ty> <a> <b> => <int>      less <ty> <a> <b> => <bool>
   coal <list> => <v>      iszero <v> => <bool>      tern <0/1> <a> <b> => <v>
+  zero | zeroof <v> | iszerom <a> (type with IsZero method) | terncast <c> <kind> <v> <b> | isnil <kind> | ref <v> | derefzero <isnil> <v>
 The specification is silent (`none`) where the property is: Abs of a signed minimum, Clamp with lo > hi, Min/Max of
 nothing, and arguments outside the value range of the type.
 -/
@@ -163,6 +164,32 @@ def step (_ : Unit) (toks : List Val) (_impl : String) : Unit × Out :=
   | [.w "tern", .i c, .i a, .i b] =>
     ((), { model := toString (Model.Math.tern (c != 0) a b), spec := some (toString (if c != 0 then a else b)),
            tags := [if c != 0 then "tern.true" else "tern.false"] })
+  | [.w "zero"] => ((), { model := toString (Model.Math.zero (0 : Int)), spec := some "0", tags := ["zero"] })
+  | [.w "zeroof", .i v] => ((), { model := toString (Model.Math.zeroOf (0 : Int) v), spec := some "0", tags := ["zeroof"] })
+  | [.w "iszerom", .i a] =>
+    -- the type has an IsZero method (even fields): honoured when the value is not the zero value
+    let m := Model.Math.isZero (0 : Int) (some (fun x => x % 2 == 0)) a
+    ((), { model := (ofBool m).render, spec := some (ofBool (a == 0 || a % 2 == 0)).render,
+           tags := [if a = 0 then "iszerom.zero" else if a % 2 == 0 then "iszerom.method-true" else "iszerom.method-false"] })
+  | [.w "terncast", .i c, .i kind, .i v, .i b] =>
+    -- kind 0: the dynamic type of `value` is int (assertion succeeds); kind 1: it is a string (assertion panics when evaluated)
+    let value : Option Int := if kind == 0 then some v else none
+    let r := match Model.Math.ternCast (c != 0) value b with | .ok x => toString x | .error e => e
+    let sp := if c != 0 then (if kind == 0 then toString v else "panic:other") else toString b
+    ((), { model := r, spec := some sp, tags := [if c != 0 then (if kind == 0 then "terncast.cast" else "terncast.panic") else "terncast.else"] })
+  | [.w "isnil", .i kind] =>
+    -- interface-typed value: holds no dynamic type (kinds 0, 2) or some dynamic type (all others, typed nil pointers/slices included)
+    let dyn : Option Int := if kind == 0 || kind == 2 then none else some kind
+    ((), { model := (ofBool (Model.Math.isNil dyn)).render, spec := some (ofBool (kind == 0 || kind == 2)).render,
+           tags := [s!"isnil.{kind}"] })
+  | [.w "ref", .i v] =>
+    -- *Ref(v) = v, and the pointer is to a copy: the argument is unchanged by a write through it
+    let r := Model.Math.derefZero (0 : Int) (Model.Math.ref v)
+    ((), { model := s!"{r} {v}", spec := some s!"{v} {v}", tags := ["ref"] })
+  | [.w "derefzero", .i isnil, .i v] =>
+    let p : Option Int := if isnil != 0 then none else some v
+    ((), { model := toString (Model.Math.derefZero (0 : Int) p), spec := some (toString (if isnil != 0 then 0 else v)),
+           tags := [if isnil != 0 then "derefzero.nil" else "derefzero.ptr"] })
   | _ => ((), bad)
 
 def judge : Judge := { σ := Unit, init := (), step := step }
